@@ -8,6 +8,7 @@ import logging
 from py2neo import Graph, Node, Relationship, Subgraph
 
 from ..model import AttackerAttachment, Model
+from ..exceptions import DuplicateModelAssociationError
 from ..language import LanguageGraph, LanguageClassesFactory
 
 logger = logging.getLogger(__name__)
@@ -217,13 +218,16 @@ def get_model(
             right_asset.type)
 
         if not assoc:
-            logger.error(
-                'Failed to find ("%s", "%s", "%s", "%s")'
-                'association in language specification!',
+            # The query pairs every relationship from a to b with every
+            # relationship from b to a, so when two assets are linked more
+            # than once most pairs mix the fields of different links.
+            logger.debug(
+                'No ("%s", "%s", "%s", "%s") association in language '
+                'specification, skipping this pair of relationships.',
                 left_asset.type, right_asset.type,
                 left_field, right_field
             )
-            return None
+            continue
 
         logger.debug('Found "%s" association.', assoc.name)
 
@@ -243,15 +247,10 @@ def get_model(
         assoc = getattr(lang_classes_factory.ns, assoc_name)()
         setattr(assoc, left_field, [left_asset])
         setattr(assoc, right_field, [right_asset])
-        if not (instance_model.association_exists_between_assets(
-            assoc_name,
-            left_asset,
-            right_asset
-        ) or instance_model.association_exists_between_assets(
-            assoc_name,
-            right_asset,
-            left_asset
-        )):
+        try:
             instance_model.add_association(assoc)
+        except DuplicateModelAssociationError:
+            # Every link is returned twice, once from each of its ends
+            pass
 
     return instance_model
